@@ -149,6 +149,8 @@ func calcOutflow(timestep int, inflow, lateral, bias, prevQi, prevOutflow, prevS
 		// Qindexmin is not small enough with zero outflow, so lets call it zero outflow
 		qi = minQI
 		outflow = 0.0
+		// Not enough water to reach the index storage: the reach holds what it received
+		storage = math.Max((prevStorage + (inflow+lateral-math.Min(initialFluxMax, area*netEvapRate))*duration), 0.0)
 		// fmt.Printf("calcOutflow-2, outflow=0, storage=%f\n", storage)
 		return
 	}
